@@ -6,6 +6,8 @@ import (
 	"errors"
 	"sort"
 
+	"github.com/postalsys/muti-metroo/internal/exit"
+
 	"github.com/postalsys/muti-metroo/internal/identity"
 	"github.com/postalsys/muti-metroo/internal/peer"
 	"github.com/postalsys/muti-metroo/internal/protocol"
@@ -59,4 +61,19 @@ func C16Process(a *Agent, from identity.AgentID, f *protocol.Frame) { a.processF
 // C16Disconnect runs the agent's peer-disconnect callback.
 func C16Disconnect(a *Agent, c *peer.Connection) {
 	a.handlePeerDisconnect(c, errors.New("verif: peer gone"))
+}
+
+// C16StartExit marks the agent's exit handler as running (Agent.Start does this) and returns it.
+func C16StartExit(a *Agent) *exit.Handler {
+	if a.exitHandler != nil {
+		a.exitHandler.Start()
+	}
+	return a.exitHandler
+}
+
+// C16RelayRoutes reports whether the TCP relay table currently claims a data frame (from, id):
+// the peer-disambiguated lookup of handleStreamData.
+func C16RelayRoutes(a *Agent, from identity.AgentID, id uint64) bool {
+	up, down := a.tcpRelay.LookupBoth(id)
+	return (up != nil && up.UpstreamPeer == from) || (down != nil && down.DownstreamPeer == from)
 }
